@@ -4,6 +4,7 @@ import (
 	"fmt"
 	"go/token"
 	"go/types"
+	"os"
 	"sort"
 	"strings"
 
@@ -368,6 +369,10 @@ func CondEdges(fn *ssa.Function, c Cond) []Edge {
 	return out
 }
 
+// MustPass is the frozen table of success-exit guards that every path from the function's entry has to pass
+// (rules/mustpass.txt: property, function, rejecting sense, canonical condition). Guard arms Opt.Entry for them.
+var MustPass = map[string]bool{}
+
 type Opt struct {
 	Unless []Cond // alternative acceptance edges (cut in both K1 and K2)
 	UsePtr bool   // a nil pointer-like result counts as "bad"
@@ -387,6 +392,9 @@ type Opt struct {
 	// From: (Guard only) callee spec; additionally every path from a call of it to the target must take the
 	// non-rejecting edge of the guard (the guard cannot be by-passed or moved under another decision).
 	From string
+	// Entry: (Guard only) additionally every path from the function's entry to the target takes the non-rejecting
+	// edge of the guard: the target cannot be reached before the guard or around it (an early acceptance).
+	Entry bool
 }
 
 func (c *Ctx) unlessEdges(fn *ssa.Function, fnName string, conds []Cond) EdgeSet {
@@ -812,6 +820,40 @@ func (c *Ctx) Guard(fn *ssa.Function, cond Cond, tgt Target, opt Opt) bool {
 			c.Fail("K5", fnName, what, site, "rejecting edge reaches "+tgt.Name+" at "+strings.Join(uniq(hit), ", "))
 		} else {
 			c.OK("K5", fnName, what, site, "rejecting edge leads to failure exits only")
+		}
+	}
+	if tgt.Success && len(opt.Unless) == 0 && len(opt.Under) == 0 && opt.From == "" {
+		// XVC_ENTRY_ALL: authoring aid that lists which guards hold from entry today (candidates for the table)
+		if os.Getenv("XVC_ENTRY_ALL") != "" || MustPass[c.Prop+"\t"+fnName+"\t"+fmt.Sprint(cond.Sense)+"\t"+cond.Canon] {
+			opt.Entry = true
+			if c.MustPassUsed == nil {
+				c.MustPassUsed = map[string]bool{}
+			}
+			c.MustPassUsed[c.Prop+"\t"+fnName+"\t"+fmt.Sprint(cond.Sense)+"\t"+cond.Canon] = true
+		}
+	}
+	if opt.Entry {
+		what2 := tgt.Name + " only through guard `" + cond.Canon + "`=" + fmt.Sprint(!cond.Sense) + " (from entry)"
+		pass := union(EdgeSet{}, cut)
+		for _, e := range CondEdges(fn, Cond{Canon: cond.Canon, Sense: !cond.Sense}) {
+			pass[e] = true
+		}
+		reached := ReachFrom([]*ssa.BasicBlock{fn.Blocks[0]}, pass)
+		var hit []string
+		for _, ti := range tins {
+			if !reached[ti.Block()] {
+				continue
+			}
+			if tgt.Success && !exitMayBeGood(ti.(*ssa.Return), vs, nil, reached) {
+				continue
+			}
+			hit = append(hit, c.At(ti))
+		}
+		if len(hit) > 0 {
+			ok = false
+			c.Fail("K2", fnName, what2, hit[0], "reachable without taking the guard's accepting edge: "+strings.Join(uniq(hit), ", "))
+		} else {
+			c.OK("K2", fnName, what2, "-", "every path from entry to the target takes the accepting edge")
 		}
 	}
 	if opt.From != "" {
@@ -1267,3 +1309,6 @@ func (c *Ctx) Then(fn *ssa.Function, from, must, to Target, unless []Cond, why s
 func ToAnyReturn() Target {
 	return Target{Name: "return", Instr: func(i ssa.Instruction) bool { _, ok := i.(*ssa.Return); return ok }}
 }
+
+// TypeField: "Type.Field" of a field address (exported for rule-local targets).
+func TypeField(fa *ssa.FieldAddr) string { return typeField(fa) }
